@@ -18,6 +18,7 @@ so the as-read behaviour coming back is reported by the oracle as a violation wi
       nonempty_only    C13_09  constants of shape [0] are not inlined
       paren_neg        C13_11  a negative literal operand of an operator is parenthesized
       refuse_hazard    C13_12  a Loop whose un-SSA assignments would read an overwritten variable raises a descriptive error
+      ph_reserved      C13_15  the name printed for an omitted node output is reserved in the unique-name pool (Export/Placeholders.v)
 """
 from __future__ import annotations
 
@@ -84,5 +85,8 @@ def detect():
                          [N("Constant", [], ["one"], value_int=1), N("Loop", ["one", "", "x", "y"], ["p", "q"], body=sbody)],
                          opset_imports=[h.make_opsetid("", 18)])
     v["refuse_hazard"] = _export(fp) == "<raised RuntimeError>"
+    # C13_15: the text printed for an omitted output is drawn from the unique-name pool (a value called `_1` and the placeholder differ)
+    code = _export(_model([N("Neg", ["x"], ["_1"]), N("Dropout", ["x"], ["d", ""]), N("Add", ["_1", "d"], ["y"])]))
+    v["ph_reserved"] = bool(re.search(r"d, _1_\d+ = ", code))
     _cache[key] = v
     return v
